@@ -220,7 +220,7 @@ pub fn explore(prop: &str, a: &Arena, arena_id: usize, b: &Bounds, stats: &mut S
                                             let mut h = it.history.clone();
                                             h.push(op.clone());
                                             let short: String = msg.chars().take(80).collect();
-                                            fnd.push(Found { arena: arena_id, init: it.init, history: h, clause: format!("panic:{}:{}", site_without_line(&site), short), detail: format!("{} panicked at {}: {}", op.kind(), site, short) });
+                                            fnd.push(Found { arena: arena_id, init: it.init, history: h, clause: format!("panic:{}:{}:{}", op.kind(), site_without_line(&site), short), detail: format!("{} panicked at {}: {}", op.kind(), site, short) });
                                         }
                                     }
                                 }
@@ -321,7 +321,7 @@ pub fn replay_history(prop: &str, r: &Value, verbose: bool) -> Result<Vec<(Strin
                 if verbose {
                     crate::say!("  step {} {} -> panic at {}: {}", i + 1, op.to_json(&a), site, short);
                 }
-                last = vec![(format!("panic:{}:{}", site_without_line(&site), short), format!("{} panicked at {}: {}", op.kind(), site, short))];
+                last = vec![(format!("panic:{}:{}:{}", op.kind(), site_without_line(&site), short), format!("{} panicked at {}: {}", op.kind(), site, short))];
                 if i + 1 < ops.len() {
                     return Err("history diverged: a step that must succeed panicked".into());
                 }
